@@ -1070,7 +1070,7 @@ fn died_violation(reg: &sim::registry::Registry, ops: &[Op], how: &str) -> Viola
     let last = ops.last();
     let (prop, fam) = match last {
         Some(Op::Call { .. }) | Some(Op::Repeat { .. }) => ("C04", ""),
-        Some(Op::Clone { .. }) | Some(Op::Conv { .. }) => ("C12", ""),
+        Some(Op::Clone { .. }) | Some(Op::CloneFrom { .. }) | Some(Op::Conv { .. }) => ("C12", ""),
         _ => ("C15", ""),
     };
     let _ = (reg, fam);
